@@ -76,6 +76,12 @@ Inductive strict : itree -> Prop :=
 | strict_raise e : strict (Raise e)
 | strict_read c k : (forall e, k (VErr e) = Raise e) -> (forall z, strict (k (VInt z))) -> strict (Read c k).
 
+(* a formula whose handlers never catch CircularRefError (they may catch every other error) *)
+Inductive cre_strict : itree -> Prop :=
+| cs_ret z : cre_strict (Ret z)
+| cs_raise e : cre_strict (Raise e)
+| cs_read c k : k (VErr CircularRef) = Raise CircularRef -> (forall v, cre_strict (k v)) -> cre_strict (Read c k).
+
 Definition mem (c : cell) (l : list cell) : bool := existsb (cell_eqb c) l.
 Definition remove (c : cell) (l : list cell) : list cell := filter (fun x => negb (cell_eqb c x)) l.
 Definition upd (val : cell -> value) (c : cell) (v : value) : cell -> value :=
@@ -284,12 +290,36 @@ Inductive expr :=
 | EAdd (a b : expr)
 | EIf (c a b : expr)
 | EDiv0
-| ETry (a : expr) (z : Z).
+| ETry (a : expr) (z : Z)
+| ETryOther (a : expr) (z : Z)    (* try: return a / except Exception as e: re-raise CircularRefError, else return z *)
+(* lookups through an index node [idx] (a '#lookup#K' helper column: its cell of row r holds the key of row r,
+   its formula is [ECol K]); the call first needs EVERY cell of the index node (Engine._use_node without
+   row ids: OrderError for the first dirty row), then looks at the matching rows in row order *)
+| ECount (idx : Z) (key : expr)             (* len(T.lookupRecords(K=key)) *)
+| EOne (idx : Z) (key : expr)               (* T.lookupOne(K=key).id *)
+| ESum (idx : Z) (key : expr) (col : Z).    (* sum(r.col for r in T.lookupRecords(K=key)) *)
 
 Definition zero_division : Z := 1.
 
-(* continuation-passing compilation; [h] is the innermost exception handler *)
-Fixpoint compile (e : expr) (row : Z) (k : Z -> itree) (h : err -> itree) : itree :=
+(* read all cells of an index node in row order; [acc] collects (reversed) the rows whose key matches *)
+Fixpoint read_index (idx : Z) (rows : list Z) (key : Z) (acc : list Z)
+                    (k : list Z -> itree) (h : err -> itree) : itree :=
+  match rows with
+  | [] => k (rev acc)
+  | r :: t => Read (idx, r) (fun v => match v with
+                                     | VInt z => read_index idx t key (if z =? key then r :: acc else acc) k h
+                                     | VErr x => h x
+                                     end)
+  end.
+
+Fixpoint read_sum (col : Z) (rs : list Z) (acc : Z) (k : Z -> itree) (h : err -> itree) : itree :=
+  match rs with
+  | [] => k acc
+  | r :: t => Read (col, r) (fun v => match v with VInt z => read_sum col t (acc + z) k h | VErr x => h x end)
+  end.
+
+(* continuation-passing compilation; [h] is the innermost exception handler; [rows] are the table's rows *)
+Fixpoint compile (rows : list Z) (e : expr) (row : Z) (k : Z -> itree) (h : err -> itree) : itree :=
   match e with
   | EConst z => k z
   | ECol col => Read (col, row) (fun v => match v with VInt z => k z | VErr x => h x end)
@@ -298,13 +328,20 @@ Fixpoint compile (e : expr) (row : Z) (k : Z -> itree) (h : err -> itree) : itre
                                | VInt r => Read (col, r) (fun w => match w with VInt z => k z | VErr x => h x end)
                                | VErr x => h x
                                end)
-  | EAdd a b => compile a row (fun x => compile b row (fun y => k (x + y)) h) h
-  | EIf c a b => compile c row (fun x => if x >? 0 then compile a row k h else compile b row k h) h
+  | EAdd a b => compile rows a row (fun x => compile rows b row (fun y => k (x + y)) h) h
+  | EIf c a b => compile rows c row (fun x => if x >? 0 then compile rows a row k h else compile rows b row k h) h
   | EDiv0 => h (Other zero_division)
-  | ETry a z => compile a row k (fun _ => k z)
+  | ETry a z => compile rows a row k (fun _ => k z)
+  | ETryOther a z => compile rows a row k (fun x => match x with CircularRef => h CircularRef | Other _ => k z end)
+  | ECount idx key =>
+      compile rows key row (fun kv => read_index idx rows kv [] (fun ms => k (Z.of_nat (length ms))) h) h
+  | EOne idx key =>
+      compile rows key row (fun kv => read_index idx rows kv [] (fun ms => k (hd 0 ms)) h) h
+  | ESum idx key col =>
+      compile rows key row (fun kv => read_index idx rows kv [] (fun ms => read_sum col ms 0 k h) h) h
   end.
 
-Definition formula_tree (e : expr) (row : Z) : itree := compile e row Ret Raise.
+Definition formula_tree (rows : list Z) (e : expr) (row : Z) : itree := compile rows e row Ret Raise.
 
 (* a document: formula columns with their expressions; every row of [rows] has these formulas *)
 Fixpoint lookup_col (cols : list (Z * expr)) (n : Z) : option expr :=
@@ -316,7 +353,7 @@ Fixpoint lookup_col (cols : list (Z * expr)) (n : Z) : option expr :=
 Definition prog_of (cols : list (Z * expr)) (rows : list Z) : prog :=
   fun c => if existsb (Z.eqb (snd c)) rows then
              match lookup_col cols (fst c) with
-             | Some e => Some (formula_tree e (snd c))
+             | Some e => Some (formula_tree rows e (snd c))
              | None => None
              end
            else None.
@@ -337,7 +374,19 @@ Fixpoint no_try (e : expr) : bool :=
   | EConst _ | ECol _ | ERef _ _ | EDiv0 => true
   | EAdd a b => no_try a && no_try b
   | EIf c a b => no_try c && no_try a && no_try b
+  | ETry _ _ | ETryOther _ _ => false
+  | ECount _ key | EOne _ key | ESum _ key _ => no_try key
+  end.
+
+(* no handler that catches CircularRefError *)
+Fixpoint no_cre_catch (e : expr) : bool :=
+  match e with
+  | EConst _ | ECol _ | ERef _ _ | EDiv0 => true
+  | EAdd a b => no_cre_catch a && no_cre_catch b
+  | EIf c a b => no_cre_catch c && no_cre_catch a && no_cre_catch b
   | ETry _ _ => false
+  | ETryOther a _ => no_cre_catch a
+  | ECount _ key | EOne _ key | ESum _ key _ => no_cre_catch key
   end.
 
 (* what the harness checks for one recorded update loop: the recorded events are a run of the model from
@@ -346,26 +395,47 @@ Fixpoint no_try (e : expr) : bool :=
    the progress checks hold at every state, the run is complete and the final values are the recorded ones *)
 Inductive titem :=
 | TL (l : label)                               (* a transition *)
-| TS (dirty_cells locked_cells : list cell).   (* engine state observed at a step boundary *)
+| TS (dirty_cells locked_cells : list cell)    (* engine state observed at a step boundary *)
+| TI (cells : list cell).                      (* cells invalidated while the loop runs (a lookup index cell
+                                                  found a changed key: _LookupRelation.invalidate_affected_keys) *)
+
+(* mid-loop invalidation: clean cells that have not been computed in this loop become dirty *)
+Definition add_dirty (s : state) (cs : list cell) : state :=
+  mk (val s) (cs ++ dirty s) (locked s) (stack s) (ndone s) (nexp s).
+Definition finished_by (l : label) : list cell :=
+  match l with LDone c | LOpp c | LCycle c => [c] | _ => [] end.
+Definition inval_ok (P : prog) (s : state) (done cs : list cell) : bool :=
+  forallb (fun c => negb (mem c (dirty s)) && negb (mem c done) &&
+                    match P c with Some _ => true | None => false end) cs.
 
 Definition same_set (a b : list cell) : bool :=
   forallb (fun x => mem x b) a && forallb (fun x => mem x a) b.
 
-Fixpoint replay_ok (P : prog) (ls : list titem) (s : state) : option state :=
+(* [done]: the cells computed so far in this loop (_recompute_done_map); an invalidation of such a cell would be
+   LOST by the engine (the row is "declared clean" without being recomputed), so the replay rejects it *)
+Fixpoint replay_ok (P : prog) (ls : list titem) (s : state) (done : list cell) : option state :=
   match ls with
   | [] => Some s
   | TL l :: t => match exec P l s with
-                 | Some s' => if (nexp s' <=? ndone s')%nat then replay_ok P t s' else None
+                 | Some s' => if (nexp s' <=? ndone s')%nat then replay_ok P t s' (finished_by l ++ done) else None
                  | None => None
                  end
-  | TS d k :: t => if same_set d (dirty s) && same_set k (locked s) then replay_ok P t s else None
+  | TS d k :: t => if same_set d (dirty s) && same_set k (locked s) then replay_ok P t s done else None
+  | TI cs :: t => if inval_ok P s done cs then replay_ok P t (add_dirty s cs) done else None
   end.
 
 Fixpoint labels_of (ls : list titem) : list label :=
   match ls with
   | [] => []
   | TL l :: t => l :: labels_of t
-  | TS _ _ :: t => labels_of t
+  | _ :: t => labels_of t
+  end.
+
+Fixpoint has_inval (ls : list titem) : bool :=
+  match ls with
+  | [] => false
+  | TI _ :: _ => true
+  | _ :: t => has_inval t
   end.
 
 Definition is_final (s : state) : bool :=
@@ -385,7 +455,7 @@ Definition trace_case :=
 Definition check_trace (c : trace_case) : bool :=
   match c with
   | (cols, rows, vals, dirty0, items, finals, _) =>
-      match replay_ok (prog_of cols rows) items (init_state (val_of vals) dirty0) with
+      match replay_ok (prog_of cols rows) items (init_state (val_of vals) dirty0) [] with
       | Some s => is_final s && forallb (fun cv => value_eqb (val s (fst cv)) (snd cv)) finals
       | None => false
       end
@@ -458,6 +528,7 @@ Definition acyclic (P : prog) (r : cell -> nat) : Prop :=
 Definition consistent (P : prog) (v0 : cell -> value) (c : cell) (v : value) : Prop :=
   (exists n, scr P v0 n c = Some v) \/ (v = VErr CircularRef /\ reaches_cycle P v0 c).
 Definition strict_prog (P : prog) : Prop := forall c t, P c = Some t -> strict t.
+Definition cre_strict_prog (P : prog) : Prop := forall c t, P c = Some t -> cre_strict t.
 Definition wf_init (P : prog) (s : state) : Prop :=
   stack s = [] /\ locked s = [] /\
   (forall c, In c (dirty s) -> P c <> None) /\
@@ -469,6 +540,7 @@ Definition check_strategy (c : trace_case) : bool :=
   | (cols, rows, vals, dirty0, items, _, order) =>
       let P := prog_of cols rows in
       let ls := labels_of items in
+      has_inval items ||
       list_eqb label_eqb (run_labels P (engine_strategy P order) (S (length ls)) (init_state (val_of vals) dirty0)) ls
   end.
 
@@ -481,7 +553,9 @@ Fixpoint below_level (lv : Z -> nat) (bound : nat) (e : expr) : bool :=
   | ERef rc col => (lv rc <? bound)%nat && (lv col <? bound)%nat
   | EAdd a b => below_level lv bound a && below_level lv bound b
   | EIf c a b => below_level lv bound c && below_level lv bound a && below_level lv bound b
-  | ETry a _ => below_level lv bound a
+  | ETry a _ | ETryOther a _ => below_level lv bound a
+  | ECount idx key | EOne idx key => (lv idx <? bound)%nat && below_level lv bound key
+  | ESum idx key col => (lv idx <? bound)%nat && (lv col <? bound)%nat && below_level lv bound key
   end.
 Definition levelled (lv : Z -> nat) (cols : list (Z * expr)) : bool :=
   forallb (fun ce => below_level lv (lv (fst ce)) (snd ce)) cols.
@@ -526,6 +600,7 @@ Fixpoint replay_edges (P : prog) (ls : list titem) (s : state) : list (Z * Z) :=
   match ls with
   | [] => []
   | TS _ _ :: t => replay_edges P t s
+  | TI cs :: t => replay_edges P t (add_dirty s cs)
   | TL l :: t =>
       let here := match l with
                   | LDone c | LOpp c | LNeed c _ => eval_edges P s c
@@ -542,4 +617,81 @@ Definition check_edges (c : trace_case) (engine_edges : list (Z * Z)) : bool :=
   | (cols, rows, vals, dirty0, items, _, _) =>
       forallb (fun e => existsb (fun g => Z.eqb (fst e) (fst g) && Z.eqb (snd e) (snd g)) engine_edges)
               (replay_edges (prog_of cols rows) items (init_state (val_of vals) dirty0))
+  end.
+
+(* ------------------------------------------------------------------------------------------
+   The update loop WITH lookups: while the loop runs, a lookup index cell that finds a changed key
+   invalidates the cells whose lookups used that key (_LookupRelation.invalidate_affected_keys ->
+   Engine.invalidate_records): clean cells become dirty.  The engine keeps, per loop, the set of cells it
+   has already computed (_recompute_done_map); a row that is invalidated again after it was computed is
+   "declared clean" without being recomputed - the invalidation is LOST and the cell keeps a stale value.
+
+   [xstep] = [step] + invalidation.  Nodes are classified by [isidx] (lookup index nodes) and [iskey] (the
+   columns index nodes read, i.e. key columns and what they depend on).  An invalidation can only happen
+   while an index cell is still dirty (it is caused by recomputing one) and only hits cells that are neither
+   index nor key cells (lookup depth 1: no key column is itself computed through a lookup).  [xlost] records
+   whether an invalidation ever hit a cell that was already computed. *)
+Record xstate := mkx { xst : state; xdone : list cell; xlost : bool }.
+
+Definition newly_clean (s s' : state) : list cell :=
+  filter (fun c => negb (mem c (dirty s'))) (dirty s).
+
+Section XStep.
+  Variable P : prog.
+  Variables isidx iskey : Z -> bool.
+
+  Definition idx_dirty (s : state) : bool := existsb (fun c => isidx (fst c)) (dirty s).
+  Definition special (c : cell) : bool := isidx (fst c) || iskey (fst c).
+
+  Inductive xstep : xstate -> xstate -> Prop :=
+  | xs_step s s' d l :
+      step P s s' -> xstep (mkx s d l) (mkx s' (newly_clean s s' ++ d) l)
+  | xs_inval s d l cs :
+      cs <> [] -> idx_dirty s = true ->
+      (forall c, In c cs -> mem c (dirty s) = false /\ special c = false /\ P c <> None) ->
+      xstep (mkx s d l)
+            (mkx (add_dirty s (filter (fun c => negb (mem c d)) cs)) d
+                 (l || existsb (fun c => mem c d) cs)).
+
+  Inductive xsteps : xstate -> xstate -> Prop :=
+  | xsteps_refl x : xsteps x x
+  | xsteps_cons x1 x2 x3 : xstep x1 x2 -> xsteps x2 x3 -> xsteps x1 x3.
+
+  (* "lookups first", as a property of one transition: a cell that is neither an index nor a key cell is
+     computed only when no index cell is dirty any more *)
+  Definition lookups_first_step (x x' : xstate) : Prop :=
+    forall c, In c (newly_clean (xst x) (xst x')) -> special c = false -> idx_dirty (xst x) = false.
+
+  Inductive lf_steps : xstate -> xstate -> Prop :=
+  | lf_refl x : lf_steps x x
+  | lf_cons x1 x2 x3 : xstep x1 x2 -> lookups_first_step x1 x2 -> lf_steps x2 x3 -> lf_steps x1 x3.
+End XStep.
+
+(* executable form of [xstep] *)
+Inductive xlabel := XL (l : label) | XI (cs : list cell).
+
+Definition xexec (P : prog) (isidx iskey : Z -> bool) (xl : xlabel) (x : xstate) : option xstate :=
+  match xl with
+  | XL l => match exec P l (xst x) with
+            | Some s' => Some (mkx s' (newly_clean (xst x) s' ++ xdone x) (xlost x))
+            | None => None
+            end
+  | XI cs =>
+      let s := xst x in
+      match cs with
+      | [] => None
+      | _ =>
+        if idx_dirty isidx s &&
+           forallb (fun c => negb (mem c (dirty s)) && negb (special isidx iskey c) &&
+                             match P c with Some _ => true | None => false end) cs
+        then Some (mkx (add_dirty s (filter (fun c => negb (mem c (xdone x))) cs)) (xdone x)
+                       (xlost x || existsb (fun c => mem c (xdone x)) cs))
+        else None
+      end
+  end.
+
+Fixpoint xreplay (P : prog) (isidx iskey : Z -> bool) (ls : list xlabel) (x : xstate) : option xstate :=
+  match ls with
+  | [] => Some x
+  | l :: t => match xexec P isidx iskey l x with Some x' => xreplay P isidx iskey t x' | None => None end
   end.
